@@ -10,7 +10,7 @@
    at run time by the harness: see DESIGN.md, C14 "partial by nature".) *)
 From Psec Require Import Lib.Base Cipher.Cipher Cipher.Toy Model.Tools Model.Mac Model.Pinblock
   Model.Tr31 Proofs.TdesLemmas Proofs.DomainLemmas Proofs.DomainPinblock Proofs.DomainHostile
-  Proofs.TapeLemmas.
+  Proofs.TapeLemmas Model.Entropy Proofs.EntropyLemmas Proofs.EntropyFill.
 Open Scope N_scope.
 
 (* ------------------------------------------------------------------ *)
@@ -155,6 +155,63 @@ Theorem C14_tr31_tape_injective_d : forall cd ca, cipher_ok cd -> cipher_ok ca -
   t1 = t2.
 Proof. exact d_wrap_tape_injective. Qed.
 Print Assumptions C14_tr31_tape_injective_d.
+
+(* ------------------------------------------------------------------ *)
+(* From OS bytes to fill symbols.  Model/Entropy.v models how CPython's secrets.choice("ABCDEF") consumes the OS
+   generator (one byte per attempt, symbol = byte >> 5, rejected when >= 6).  The harness checks on every run that the
+   fill psec emits IS this function of the bytes the OS generator returned during the call (harness/c14_monitor.py);
+   proved here: that function is exactly uniform and independent per symbol when the bytes are. *)
+Theorem C14_choice_draw_spec : forall stream n syms rest,
+  draw stream n = Some (syms, rest) ->
+  syms = map attempt (firstn n (filter accepted stream)) /\
+  length syms = n /\
+  Forall (fun s => s < 6) syms /\
+  exists used, stream = used ++ rest /\
+               filter accepted used = firstn n (filter accepted stream) /\
+               ends_accepted n used.
+Proof. exact draw_spec_l. Qed.
+Print Assumptions C14_choice_draw_spec.
+
+Theorem C14_choice_runs_out_iff : forall stream n,
+  draw stream n = None <-> (length (filter accepted stream) < n)%nat.
+Proof. exact draw_none_iff_l. Qed.
+Print Assumptions C14_choice_runs_out_iff.
+
+(* one byte: each of the six symbols has exactly 32 of the 256 byte values, 64 values are rejected *)
+Theorem C14_choice_one_byte :
+  (forall s, s < 6 -> length (filter (fun b => attempt b =? s) all_bytes) = 32%nat) /\
+  length (filter accepted all_bytes) = 192%nat.
+Proof. split; [exact attempt_uniform_l | exact accepted_count_l]. Qed.
+Print Assumptions C14_choice_one_byte.
+
+(* n symbols: every word over the six symbols has exactly 32^n preimages among the rejection-free byte strings of
+   its length - the symbols are independent and exactly uniform when the bytes are *)
+Theorem C14_choice_uniform : forall (w : list N), Forall (fun s => s < 6) w ->
+  length (filter (draws_exactly w) (words (length w))) = Nat.pow 32 (length w).
+Proof. exact draw_uniform_draw_l. Qed.
+Print Assumptions C14_choice_uniform.
+
+Theorem C14_choices10_spec : forall stream ch rest,
+  choices10 stream = Some (ch, rest) ->
+  ch = choices_of_syms (map attempt (firstn 10 (filter accepted stream))) /\
+  length ch = 10%nat /\ af_str ch /\
+  exists used, stream = used ++ rest /\ filter accepted used = firstn 10 (filter accepted stream).
+Proof. exact choices10_spec. Qed.
+Print Assumptions C14_choices10_spec.
+
+(* the fill a format 3 block carries is the image of the first 14 - len(pin) accepted OS bytes *)
+Theorem C14_format3_fill_from_os_bytes : forall pin pan stream ch rest,
+  dom_pin pin -> dom_pan13 pan -> choices10 stream = Some (ch, rest) ->
+  exists block pb,
+    encode_pinblock_iso_3 pin pan ch = Ok block /\ pan_block pan = Ok pb /\
+    skipn (2 + length pin) (hex_upper (py_xor block pb)) =
+      firstn (14 - length pin) (choices_of_syms (map attempt (firstn 10 (filter accepted stream)))).
+Proof. exact format3_fill_from_os_bytes. Qed.
+Print Assumptions C14_format3_fill_from_os_bytes.
+
+Example C14_choices10_on_data :
+  choices10 [0; 255; 64; 200; 32; 96; 128; 160; 191; 1; 33; 65; 7] = Some ([65; 67; 66; 68; 69; 70; 70; 65; 66; 67], [7]).
+Proof. vm_compute. reflexivity. Qed.
 
 (* ------------------------------------------------------------------ *)
 (* Examples: premises are satisfiable, and what the statements say on data *)
